@@ -23,7 +23,7 @@ echo "demo before=$res_before (want 0)  tests=$tests (want 0)  demo after=$res_a
 declare -A RES
 if [ "${SEED_SCRATCH:-0}" = 1 ]; then RP=$SCR; else git -C /repo worktree remove --force $SCR; git -C /repo apply $OUT/patch.diff || { echo "cannot apply to /repo"; exit 2; }; RP=/repo; fi
 for p in $PROP $EXTRA; do
-  (cd /verif && VERIF_REPO=$RP timeout 3000 ./check $p > /tmp/seedv/$NAME.check_$p.log 2>&1); RES[$p]=$?
+  (cd ${VERIF_DIR:-/verif} && VERIF_REPO=$RP timeout 3000 ./check $p > /tmp/seedv/$NAME.check_$p.log 2>&1); RES[$p]=$?
   echo "check $p -> exit ${RES[$p]}: $(grep -c '^VIOLATION' /tmp/seedv/$NAME.check_$p.log) violation line(s); $(tail -1 /tmp/seedv/$NAME.check_$p.log)"
 done
 if [ "${SEED_SCRATCH:-0}" = 1 ]; then git -C /repo worktree remove --force $SCR; else git -C /repo checkout -- . ; git -C /repo status --short | head -3; fi
